@@ -8,6 +8,19 @@ BASE = "cd /repo && /venv/bin/python -m pytest -ra -q -p no:cacheprovider --time
 
 # id -> dict(level, text, note, technique, design_ref, engine)
 CLAIMS = {
+ "C11": dict(
+  level="model_checking",
+  text="Extract.tla states conservation (every integrated payload of the input hierarchy in exactly one place with identical "
+       "bytes, as selected by the two patterns; dependencies re-embedded under the same name; every other member "
+       "byte-identical; duplicate URI / non-envelope dependency => failure without output). Extract_MC checks an "
+       "implementation-shaped from_envelope against CacheJudge and a directly stated Conservation invariant over every "
+       "two-level hierarchy and pattern class; the TLC-enumerated hierarchies are built with the real create and run "
+       "through the real cache_create from_envelope (library + CLI); seeded hierarchies to depth 3 and payload_extract "
+       "with/without replacement and output file; every run is an Extract event judged by TLC.",
+  note="Trusted: TLC, verifier's CBOR reader and cache walker, re.fullmatch as the meaning of a pattern. Needs fix F1 "
+       "(27c7c27). A payload name that does not exist (O7) is outside the property.",
+  technique="TLA+ spec (Extract.tla, Extract_MC.tla) + TLC exhaustive model checking + TLC-generated hierarchies replayed into real cache_create/payload_extract + TLC trace validation",
+  design_ref="DESIGN.md 4.7, 5 (C11)", engine="tlc"),
  "C04": dict(
   level="model_checking",
   text="Envelope.tla states SignJudge (exactly one block appended, every other element byte-identical, block verifies under "
